@@ -186,6 +186,20 @@ CLAIMED["C23"] = dict(
     ref="DESIGN.md 10.9",
 )
 
+CLAIMED["C12"] = dict(
+    technique="path-wise closed-form extraction of the repository's own forward_quant (straight-line locals inlined, path conditions classified as sign tests of the coefficient, each returned value compared with (4*|coeff|)//quant_factor(index) or its outer negation); pinned-ness check of inverse_quant / quant_factor / quant_offset; def-use check of the lossless_quantization test case's index (unfiltered maximum of the matrix plus a reviewed minimum, stored unconditionally in every slice); hidden-state and bug-pattern rules",
+    text="Every numeric clause - the one-step reconstruction bound, losslessness of index 0, strict monotonicity of quant_factor and of inverse_quant(1, q) - is integer arithmetic of pinned pseudocode over unbounded values and is NOT decided; static analysis in reach cannot decide it and no claim is made for it. Decided are the necessary conditions visible in code the repository's pseudocode-equivalence test does not cover: forward_quant rounds towards zero (floor division applied to the magnitude, negation applied outside) with the factor of the same index the dequantiser multiplies by, and is odd-symmetric, which both the sign clause and the strict bound need; the three spec functions are still pinned; the lossless test case's index lies at least MINIMUM_DISTINCT_QINDEX (>= 6, the reviewed start of the strictly increasing run) above every matrix entry in every slice.",
+    note="Very thin: the numeric content of the property is not decided. Trusted: the repository's equivalence test for pinned functions; the hand-reviewed table inverse_quant(1, q) = 1, 2, 2, 3, 3, 4, 4, 5, 6, ...",
+    ref="DESIGN.md 10.9",
+)
+
+CLAIMED["C22"] = dict(
+    technique="counting argument over the frame-to-picture dispatch table of progressive_to_pictures and the yield structure of every generator (pattern-matched field transforms, second yield under the interlaced-source test, doubled counts under the fields test, enumerate-from-0 numbering, decorator order); provenance of every emitted component to the clip whose bound is 2**intlog2(excursion+1)-1 of that component's own excursion, and of mid_gray / white_noise shapes and ranges to the component's own entry of compute_dimensions_and_depths",
+    text="Component sizes of the float pipelines (sprite placement, subsampling) and the numeric effect of numpy operations are runtime quantities and are not decided. Decided: pictures are numbered 0, 1, ... in generation order; in each of the four sampling/coding combinations the number of pictures per source frame is what the dispatch table says and every generator doubles its frames exactly when that would otherwise leave an odd field (so field counts are even and pairing drops nothing); every generator yields at least once; the last operation on each component from_xyz returns is the clip to [0, 2**depth-1] with depth = intlog2(excursion+1) of that component kind, applied to a rounded integer array; mid_gray and white_noise take each component's shape and range from that component's own dimensions/depth.",
+    note="Thin. Trusted: numpy semantics of round/astype/clip/randint/full; callers pass positive frame counts.",
+    ref="DESIGN.md 10.9",
+)
+
 CLAIMED["C09"] = dict(
     technique="must/may event flow over picture_decode (ordering of inverse transform, clip, offset before the output callback; single invocation; argument wiring) and call-site placement of picture_decode in parse_sequence; completion-flag provenance",
     text="Sample ranges and dimensions come from spec-pinned arithmetic and are not decided. Decided on all paths: what reaches the output callback has been transformed, clipped and offset in that order; the callback runs at most once per decoded picture with the right arguments; the picture number is the coded one; a picture is decoded exactly once per picture data unit and once per completed fragmented picture.",
@@ -194,11 +208,7 @@ CLAIMED["C09"] = dict(
 )
 
 NOT_APPLICABLE = {
-    "C12": "arithmetic over unbounded integers (quantisation error bounds, monotonicity of a rational formula): no structural clause; needs algebra/solver or execution",
-    "C13": "partition/telescoping identities of floor arithmetic on runtime sizes; the functions are spec-pinned arithmetic with nothing to decide from code shape",
-    "C14": "depends on runtime coefficient magnitudes and byte budgets; the only shape-level fact (ascending search returning first fit) is too thin to carry the claim",
-    "C22": "numpy float-to-int value ranges and picture geometry are runtime quantities; no necessary structural condition strong enough to claim",
-    "C23": "byte packing/unpacking of runtime sample values and pixel-difference counts; no necessary structural condition strong enough to claim",
+    "C12": "arithmetic over unbounded integers (quantisation error bounds, monotonicity of a rational formula): the quantisation functions are pinned line by line to the standard and every clause of the property is a numeric inequality over all coefficient values and quantisation indices; no clause is visible in the shape of the code, so no necessary structural condition can be named; needs algebra/solver or execution",
 }
 
 PENDING = "designed (DESIGN.md section 4); checker not built yet in this tree"
